@@ -1,6 +1,10 @@
 """C03 -- object lifetimes: alive from creation to delete_id, never resurrected"""
 from harness import objtable
 LEVEL = 'model_checking'
+MANIFEST = {'category': 'model_checking', 'engine': 'symx+z3',
+ 'technique': 'bounded symbolic execution of the real object-table code (symx proxies + z3): one inductive step, lifetime fields and exact integer time arithmetic',
+ 'text': 'Same step as C02 with the lifetime assertions: alive flags, creation/destruction times and lifespan arithmetic exact over symbolic integer times, destroyed_obj only on wl_display.delete_id, implicit destruction of re-used server ids at exactly id >= 0xff000000, no resurrection.',
+ 'note': 'Trusted: as C02. Times are integers; the textual rendering of the lifespan is not part of this check.'}
 EXPLANATION = ('Same inductive step as C02, asserting the lifetime half: alive flags, creation/destruction times, lifespan arithmetic (exact, integer '
                'times), destroyed_obj annotation only on wl_display.delete_id, implicit destruction of re-used server-range ids, no resurrection.')
 ASSUMPTIONS = ['times are symbolic integers (floating-point rounding of displayed lifespans is C16/C17 territory)',
